@@ -197,3 +197,49 @@ def r_C28f(root):
             if not ok: out.append(Finding("C28", "C28.f", rel, q, " ".join(ast.unparse(n).split())[:90], "an error's location is filled in partly outside the two places that fill it completely: the resolver then finds the error 'located' and does not add the line and column of the reference", witness="PlainNameImportURI; a name defined twice in an imported file"))
     if inst < 2: raise AnalysisError("location fill-in sites: only %d found (TextXMetaModel.process and resolve_one_step expected)" % inst)
     return inst, out
+
+def r_who_writes(root):
+    """C27.e  a model's parameters are written once, when it is created: `_tx_model_params` is assigned only inside the two
+              kwargs_callback functions of metamodel.py (C27.c) — a cached model handed out again keeps the parameters of
+              the load that built it.
+       C07.d  the builtins fallback binds plain Python objects: in resolve_one_step the tool-support bookkeeping (which reads
+              _tx_position / _tx_filename of the resolved *model object*) is not reachable, within one iteration, from the
+              statement that binds a builtin.
+       C25.h  the 'redefined imported rule cannot be replaced by a user class' error depends only on the user class being
+              found and its rule name having been used before (not on what is visible from the current grammar file)."""
+    import glob as _glob, os as _os
+    out = []; inst = 0
+    files = sorted(_os.path.relpath(f, root) for f in _glob.glob(_os.path.join(root, "textx", "**", "*.py"), recursive=True))
+    for rel in files:
+        t = load(root, rel)
+        for n in ast.walk(t):
+            if isinstance(n, ast.Assign) and any(isinstance(tg, ast.Attribute) and tg.attr == "_tx_model_params" for tg in n.targets):
+                inst += 1; q = qualname(n)
+                ok = rel == "textx/metamodel.py" and q.endswith("kwargs_callback")
+                ob("C27", "C27.e", rel, q, " ".join(ast.unparse(n).split())[:80], ok)
+                if not ok: out.append(Finding("C27", "C27.e", rel, q, " ".join(ast.unparse(n).split())[:90], "a model's parameters are overwritten outside its creation: a model cached in the repository then shows the parameters of a later load while the models it imported keep those of the first", witness="global_repository=True; the same main file loaded twice with different parameters"))
+    if inst < 2: raise AnalysisError("stores of _tx_model_params: only %d found" % inst)
+    # ---- C07.d
+    fn = find_i(root, M, "ReferenceResolver.resolve_one_step"); fi = sem.info(fn); cfg = fi.cfg
+    fb = [n for n in cfg.nodes if n.kind == "stmt" and isinstance(n.ast, ast.Assign) and "builtins[" in ast.unparse(n.ast.value)]
+    book = [n for n in cfg.nodes if n.ast is not None and n.kind == "stmt" and any(callee_name(c) == "RefRulePosition" for c in calls(n.ast))]
+    if not fb or not book: raise AnalysisError("resolve_one_step: builtins fallback / tool bookkeeping not found")
+    inst += 1
+    heads = [n for n in cfg.nodes if n.kind == "loop"]
+    p = None
+    for a in fb:
+        for b in book:
+            p = p or cfg.paths_avoiding(a, b, lambda m: m in heads)
+    ob("C07", "C07.d", M, "ReferenceResolver.resolve_one_step", "tool bookkeeping not reachable from the builtins fallback within one iteration", p is None)
+    if p is not None:
+        for pr in ("C07", "C34"): out.append(Finding(pr, "C07.d", M, "ReferenceResolver.resolve_one_step", " ".join(ast.unparse(fb[0].ast).split())[:80], "a reference bound to a builtin (a plain Python object) reaches the tool-support bookkeeping, which reads _tx_position / _tx_filename of the target: loading fails with AttributeError instead of resolving to the builtin", witness="textx_tools_support=True and a reference that only builtins can resolve"))
+    # ---- C25.h
+    vr = find_i(root, "textx/lang.py", "TextXVisitor.visit_rule_name"); fiv = sem.info(vr)
+    rs = [r for r in own_nodes(vr) if isinstance(r, ast.Raise) and "redefined imported rule" in ast.unparse(r)]
+    if not rs: raise AnalysisError("visit_rule_name: redefinition error not found")
+    for r in rs:
+        inst += 1
+        extra = [(a, pol) for a, pol in fiv.atoms_at(r) if not ("_used_rule_names_for_user_classes" in a or a.replace(" ", "") in ("clsisNone",) or "user_classes" in a)]
+        ob("C25", "C25.h", "textx/lang.py", "TextXVisitor.visit_rule_name", "redefinition error under %s" % [a for a, _p in fiv.atoms_at(r)], not extra)
+        if extra: out.append(Finding("C25", "C25.h", "textx/lang.py", "TextXVisitor.visit_rule_name", "raise ... under %s%s" % ("" if extra[0][1] else "not ", extra[0][0][:70]), "the error for a user class bound to two rules of the same name depends on an extra condition: for sibling grammar files that do not import each other one user class is silently initialised for both rules (same class object, the fqn of the file read last)", witness="classes=[Thing]; left.tx and right.tx both define Thing and do not import each other"))
+    return inst, out
